@@ -149,14 +149,21 @@ func runC09(w *core.World, r *core.Report) {
 			n++
 			okLim := false
 			why := "the limit argument does not derive from the LOAD instruction's size operand"
-			for _, src := range core.Sources(lim) {
+			limSrcs, limArgs := sourcesViaParams(w, h, lim)
+			for _, src := range limSrcs {
 				if cc, i, ok := core.ExtractOf(src); ok && i == 1 && isDecoderCall(cc) {
 					okLim = true
 				}
 			}
 			if okLim {
-				for _, s := range narrowingSites(w, []*ssa.Function{h}) {
-					for _, src := range append(core.Sources(lim), lim) {
+				scopeFns := []*ssa.Function{h}
+				for _, a := range limArgs {
+					if in, ok := a.(ssa.Instruction); ok && in.Parent() != h {
+						scopeFns = append(scopeFns, in.Parent())
+					}
+				}
+				for _, s := range narrowingSites(w, scopeFns) {
+					for _, src := range append(append(append([]ssa.Value{}, limSrcs...), limArgs...), lim) {
 						if src == ssa.Value(s.conv) && s.class != "proved" {
 							okLim = false
 							why = "the size operand is narrowed to the cache's limit type without a range check: a declared limit of 65536 becomes 0 ('no limit') and larger ones an arbitrary small limit"
